@@ -1,6 +1,7 @@
 package main
 
 import (
+	"go/constant"
 	"go/token"
 	"go/types"
 
@@ -374,17 +375,34 @@ func ruleIDX3(c *Ctx) []Ob {
 					}
 					slice := call.Common().Args[0]
 					saved := false
-					for _, wc := range wcalls {
-						if wc.Fn != fn {
-							continue
-						}
-						for _, og := range origins(wc.Doc) {
+					isElem := func(v ssa.Value) bool {
+						for _, og := range origins(v) {
 							if u, ok := og.(*ssa.UnOp); ok && u.Op == token.MUL {
 								if ia, ok := u.X.(*ssa.IndexAddr); ok && (ia.X == slice || sameOrigin(ia.X, slice)) {
-									saved = true
+									return true
 								}
 							}
 						}
+						return false
+					}
+					for _, wc := range wcalls {
+						if wc.Fn == fn {
+							if isElem(wc.Doc) {
+								saved = true
+							}
+							continue
+						}
+						// the save sits in a per-document helper called here with an element of the slice
+						p, isParam := wc.Doc.(*ssa.Parameter)
+						if !isParam {
+							continue
+						}
+						pi := paramIndex(wc.Fn, p)
+						allCalls(fn, func(hc ssa.CallInstruction) {
+							if g := staticCallee(hc); g != nil && c.declared(g) == wc.Fn && pi >= 0 && pi < len(hc.Common().Args) && isElem(hc.Common().Args[pi]) {
+								saved = true
+							}
+						})
 					}
 					if !saved {
 						verdict, msg = VIOLATED, "the counter grows by len(x) but this function does not save exactly the elements of x"
@@ -663,7 +681,8 @@ func ruleID1(c *Ctx) []Ob {
 			o.add(OK, key, pos, "the save is reached only when the saved document's ObjectId() equals the id the key was built from")
 			continue
 		}
-		// (c) the same test inside a helper: check(id, saved) error, whose nil result guards the save
+		// (c) the same test inside a helper whose nil error guards the save: check(id, saved) error, or
+		// a helper that produces the document to save and returns it only when its id equals the given one
 		var hguards []edge
 		allCalls(wc.Fn, func(hc ssa.CallInstruction) {
 			hcall, ok := hc.(*ssa.Call)
@@ -675,35 +694,83 @@ func ruleID1(c *Ctx) []Ob {
 				return
 			}
 			h = c.declared(h)
-			// which parameters does the helper compare: ObjectId(param a) against string param b
-			for _, hb := range h.Blocks {
-				for _, hin := range hb.Instrs {
-					bo, ok := hin.(*ssa.BinOp)
-					if !ok || (bo.Op != token.EQL && bo.Op != token.NEQ) {
+			ei := errResultIndex(h.Signature)
+			args := hcall.Common().Args
+			// equality edges inside the helper: ObjectId(x) == string parameter b
+			type tie struct {
+				x  ssa.Value
+				bi int
+			}
+			var ties []tie
+			heq := guardEdges(h, func(cond ssa.Value, branch bool) bool {
+				bo, ok := cond.(*ssa.BinOp)
+				if !ok || (bo.Op != token.EQL && bo.Op != token.NEQ) || (bo.Op == token.EQL) != branch {
+					return false
+				}
+				for _, pair := range [][2]ssa.Value{{bo.X, bo.Y}, {bo.Y, bo.X}} {
+					oc, ok := c.isObjectIdCall(stripConv(pair[0]))
+					if !ok {
 						continue
 					}
-					for _, pair := range [][2]ssa.Value{{bo.X, bo.Y}, {bo.Y, bo.X}} {
-						oc, ok := c.isObjectIdCall(stripConv(pair[0]))
-						if !ok {
-							continue
+					pb, okB := pair[1].(*ssa.Parameter)
+					if !okB {
+						continue
+					}
+					bi := paramIndex(h, pb)
+					if bi < 0 || bi >= len(args) || !(args[bi] == idV || sameOrigin(args[bi], idV)) {
+						continue
+					}
+					ties = append(ties, tie{oc.Common().Args[0], bi})
+					return true
+				}
+				return false
+			})
+			if len(heq) == 0 {
+				return
+			}
+			// every success return of the helper lies behind the equality
+			for _, ret := range returnsOf(h) {
+				if ev, ok := returnedValue(ret, ei); ok && c.provablyNonNil(h, ev, ret.Block()) {
+					continue
+				}
+				if !guardedBy(h, ret.Block(), heq) {
+					return
+				}
+			}
+			// the compared document is the one saved: a parameter bound to it, or a result the caller saves
+			tied := false
+			for _, t := range ties {
+				if pa, ok := t.x.(*ssa.Parameter); ok {
+					if ai := paramIndex(h, pa); ai >= 0 && ai < len(args) && (args[ai] == wc.Doc || sameOrigin(args[ai], wc.Doc)) {
+						tied = true
+					}
+					continue
+				}
+				for k := 0; k < h.Signature.Results().Len(); k++ {
+					if k == ei {
+						continue
+					}
+					returnsIt := false
+					for _, ret := range returnsOf(h) {
+						if rv, ok := returnedValue(ret, k); ok && (rv == t.x || sameOrigin(rv, t.x)) {
+							returnsIt = true
 						}
-						pa, okA := oc.Common().Args[0].(*ssa.Parameter)
-						pb, okB := pair[1].(*ssa.Parameter)
-						if !okA || !okB {
-							continue
-						}
-						ai, bi := paramIndex(h, pa), paramIndex(h, pb)
-						args := hcall.Common().Args
-						if ai < 0 || bi < 0 || ai >= len(args) || bi >= len(args) {
-							continue
-						}
-						if (args[ai] == wc.Doc || sameOrigin(args[ai], wc.Doc)) && (args[bi] == idV || sameOrigin(args[bi], idV)) {
-							for _, rv := range resultValues(hcall, errResultIndex(h.Signature)) {
-								hguards = append(hguards, nilEdges(wc.Fn, sameValue(rv))...)
-							}
+					}
+					if !returnsIt {
+						continue
+					}
+					for _, rv := range resultValues(hcall, k) {
+						if rv == wc.Doc || sameOrigin(rv, wc.Doc) {
+							tied = true
 						}
 					}
 				}
+			}
+			if !tied {
+				return
+			}
+			for _, rv := range resultValues(hcall, ei) {
+				hguards = append(hguards, nilEdges(wc.Fn, sameValue(rv))...)
 			}
 		})
 		if guardedBy(wc.Fn, wc.Call.Block(), hguards) {
@@ -757,9 +824,11 @@ func ruleID2(c *Ctx) []Ob {
 		key := c.fname(wc.Fn) + "/probe before save"
 		pos := relPath(c, wc.Call.Pos())
 		kbase := stripConv(wc.Key)
-		ex, ab := c.existenceEdges(wc.Fn, func(k ssa.Value) bool {
+		ex, ab := c.existenceEdgesH(wc.Fn, func(k ssa.Value) bool {
 			gk := stripConv(k)
 			return gk == kbase || sameOrigin(gk, kbase)
+		}, func(k ssa.Value, bind map[*ssa.Parameter]ssa.Value) bool {
+			return c.sameKeyExpr(k, kbase, bind, 0)
 		})
 		guards := append(ex, ab...)
 		if guardedBy(wc.Fn, wc.Call.Block(), guards) {
@@ -835,30 +904,117 @@ func ruleID3(c *Ctx) []Ob {
 			doc := args[0]
 			key := c.fname(fn) + "/assign _id"
 			pos := relPath(c, call.Pos())
-			guards := guardEdges(fn, func(cond ssa.Value, branch bool) bool {
-				// !doc.Has("_id")
-				if hc, ok := cond.(*ssa.Call); ok {
-					if g := staticCallee(hc); g != nil && c.declared(g) == hasM && isIdConst(hc.Common().Args[1]) && (hc.Common().Args[0] == doc || sameOrigin(hc.Common().Args[0], doc)) {
-						return !branch
-					}
+			// valueFact: the boolean v having the value bv means "_id of doc is absent or the empty string"
+			var factEdges func(f *ssa.Function, doc ssa.Value, depth int) []edge
+			var valueFact func(f *ssa.Function, doc ssa.Value, v ssa.Value, bv bool, depth int) bool
+			valueFact = func(f *ssa.Function, doc ssa.Value, v ssa.Value, bv bool, depth int) bool {
+				if depth > 4 {
+					return false
 				}
-				// doc.Get("_id") == ""
-				if b, ok := cond.(*ssa.BinOp); ok && (b.Op == token.EQL || b.Op == token.NEQ) {
-					for _, pair := range [][2]ssa.Value{{b.X, b.Y}, {b.Y, b.X}} {
-						gc, ok := stripIfaceOnly(pair[0]).(*ssa.Call)
-						if !ok {
-							continue
+				switch x := v.(type) {
+				case *ssa.UnOp:
+					if x.Op == token.NOT {
+						return valueFact(f, doc, x.X, !bv, depth)
+					}
+				case *ssa.Call:
+					g := staticCallee(x)
+					if g == nil {
+						return false
+					}
+					// doc.Has("_id") is false
+					if c.declared(g) == hasM && isIdConst(x.Common().Args[1]) && (x.Common().Args[0] == doc || sameOrigin(x.Common().Args[0], doc)) {
+						return !bv
+					}
+					// a library predicate about the same document: every way it yields bv implies the fact
+					h := c.declared(g)
+					if !c.IsLib(h) || len(h.Blocks) == 0 || h.Signature.Results().Len() != 1 {
+						return false
+					}
+					if bt, ok := h.Signature.Results().At(0).Type().Underlying().(*types.Basic); !ok || bt.Kind() != types.Bool {
+						return false
+					}
+					pi := -1
+					for i, a := range x.Common().Args {
+						if a == doc || sameOrigin(a, doc) {
+							pi = i
 						}
-						if g := staticCallee(gc); g == nil || c.declared(g) != getM || !isIdConst(gc.Common().Args[1]) {
-							continue
+					}
+					if pi < 0 || pi >= len(h.Params) {
+						return false
+					}
+					hdoc := ssa.Value(h.Params[pi])
+					allowed := factEdges(h, hdoc, depth+1)
+					var ways func(rv ssa.Value, at *ssa.BasicBlock, via *edge, want bool, d int) bool
+					ways = func(rv ssa.Value, at *ssa.BasicBlock, via *edge, want bool, d int) bool {
+						if d > 6 {
+							return false
 						}
-						if s, ok := constString(stripConv(pair[1])); ok && s == "" {
-							return (b.Op == token.EQL) == branch
+						located := guardedBy(h, at, allowed)
+						if via != nil {
+							for _, e := range allowed {
+								if e == *via {
+									located = true
+								}
+							}
+						}
+						switch y := rv.(type) {
+						case *ssa.Const:
+							if y.Value == nil || y.Value.Kind() != constant.Bool {
+								return false
+							}
+							if constant.BoolVal(y.Value) != want {
+								return true // this way never yields the value asked about
+							}
+							return located
+						case *ssa.Phi:
+							for i, e := range y.Edges {
+								p := y.Block().Preds[i]
+								var viaE *edge
+								if len(p.Instrs) > 0 {
+									if _, isIf := p.Instrs[len(p.Instrs)-1].(*ssa.If); isIf {
+										viaE = &edge{p, p.Succs[0] == y.Block()}
+									}
+								}
+								if !ways(e, p, viaE, want, d+1) {
+									return false
+								}
+							}
+							return true
+						}
+						return located || valueFact(h, hdoc, rv, want, depth+1)
+					}
+					for _, ret := range returnsOf(h) {
+						rv, ok := returnedValue(ret, 0)
+						if !ok || !ways(rv, ret.Block(), nil, bv, 0) {
+							return false
+						}
+					}
+					return true
+				case *ssa.BinOp:
+					// doc.Get("_id") == ""
+					if x.Op == token.EQL || x.Op == token.NEQ {
+						for _, pair := range [][2]ssa.Value{{x.X, x.Y}, {x.Y, x.X}} {
+							gc, ok := stripIfaceOnly(pair[0]).(*ssa.Call)
+							if !ok {
+								continue
+							}
+							if g := staticCallee(gc); g == nil || c.declared(g) != getM || !isIdConst(gc.Common().Args[1]) || !(gc.Common().Args[0] == doc || sameOrigin(gc.Common().Args[0], doc)) {
+								continue
+							}
+							if s, ok := constString(stripConv(pair[1])); ok && s == "" {
+								return (x.Op == token.EQL) == bv
+							}
 						}
 					}
 				}
 				return false
-			})
+			}
+			factEdges = func(f *ssa.Function, doc ssa.Value, depth int) []edge {
+				return guardEdges(f, func(cond ssa.Value, branch bool) bool {
+					return valueFact(f, doc, cond, branch, depth)
+				})
+			}
+			guards := factEdges(fn, doc, 0)
 			if guardedBy(fn, call.Block(), guards) {
 				o.add(OK, key, pos, "a generated id is assigned only when _id is absent or the empty string")
 			} else {
